@@ -43,7 +43,7 @@ pub static INFO: PropInfo = PropInfo {
     crash_class: Some(crash_class),
     min_nontrivial: 200,
     // "classified:*" are counted outside the cases (a crash loses the counters of its segment)
-    required_counters: &["classified:finite", "classified:repetition", "classified:divergent-without-repetition", "outcome:ok", "outcome:recursive-calibration-error"],
+    required_counters: &["workload:measure-shapes", "classified:finite", "classified:repetition", "classified:divergent-without-repetition", "outcome:ok", "outcome:recursive-calibration-error"],
     watchdog_s: 240,
     ..DEFAULT
 };
@@ -223,6 +223,56 @@ fn execute(ctx: &mut Ctx, case: &Case) {
     }
 }
 
+/// Programs over two measurement calibrations (A on qubit 0 or any qubit, B on qubit 1; with or
+/// without a target) and one gate calibration `GX q`, whose bodies re-measure or call `GX`.
+fn measure_shapes() -> Vec<String> {
+    fn bodies(head_q: &str, head_t: Option<&str>) -> Vec<String> {
+        let mut qs = vec!["0", "1"];
+        if head_q == "q" {
+            qs.push("q");
+        }
+        let mut ts: Vec<Option<&str>> = vec![Some("ro[0]"), None];
+        if let Some(t) = head_t {
+            ts.push(Some(t));
+        }
+        let mut v = vec![String::new()];
+        for q in &qs {
+            for t in &ts {
+                v.push(match t {
+                    Some(t) => format!("    MEASURE {q} {t}\n"),
+                    None => format!("    MEASURE {q}\n"),
+                });
+            }
+            v.push(format!("    GX {q}\n"));
+        }
+        v
+    }
+    let head = |q: &str, t: Option<&str>| match t {
+        Some(t) => format!("DEFCAL MEASURE {q} {t}:\n    NOP\n"),
+        None => format!("DEFCAL MEASURE {q}:\n    NOP\n"),
+    };
+    let mut out = Vec::new();
+    for (aq, at) in [("0", Some("addr")), ("q", Some("addr")), ("0", None), ("q", None)] {
+        for abody in bodies(aq, at) {
+            let a = format!("{}{}", head(aq, at), abody);
+            let mut bs = vec![String::new()];
+            for bt in [Some("dest"), None] {
+                for bbody in bodies("1", bt) {
+                    bs.push(format!("{}{}", head("1", bt), bbody));
+                }
+            }
+            for b in &bs {
+                for gbody in ["    NOP\n", "    MEASURE q ro[0]\n", "    MEASURE 0 ro[1]\n", "    MEASURE 1\n"] {
+                    for top in ["MEASURE 0 ro[0]\n", "MEASURE 0\n", "GX 0\n", "MEASURE 1 ro[0]\nGX 1\n"] {
+                        out.push(format!("DECLARE ro BIT[2]\n{a}{b}DEFCAL GX q:\n{gbody}{top}"));
+                    }
+                }
+            }
+        }
+    }
+    out
+}
+
 fn shapes(n_cals: usize, out: &mut Vec<(Vec<C18Cal>, bool, bool)>) {
     // per calibration: target in {none, 0..n}, transform, swapped
     let per: Vec<C18Cal> = {
@@ -330,6 +380,19 @@ fn run(ctx: &mut Ctx) {
             if ctx.done() {
                 return;
             }
+        }
+    }
+    // ---- cycles that run through MEASURE: measurement calibrations re-measuring (themselves,
+    // each other) and a gate calibration that measures; enumerated completely in both tiers
+    for (k, text) in measure_shapes().into_iter().enumerate() {
+        if !ctx.mine(k as u64) {
+            continue;
+        }
+        let c = classify(text, "workload:measure-shapes");
+        tally(&c);
+        execute(ctx, &c);
+        if ctx.done() {
+            return;
         }
     }
     let mut rng = ctx.rng(1);
